@@ -267,6 +267,13 @@ def replay_one(pid, path, seed, fields, rollback=False, c14=False, tvconsts=None
     rp = json.load(open(path))["replay"]
     b = rp["behaviour"]
     v = vlib.Verdict(pid, "quick", seed)
+    if b.get("fixture"):
+        # a violation found on the trace of one of the repository's own fixtures: record and validate them again
+        fixture_traces(v, pid, fields, pid.lower() + "-fx-replay")
+        for what, r in v.violations:
+            log(f"VIOLATION property={pid} replay={path}")
+            log("  " + what)
+        return 1 if v.violations else 0
     traces = replay([b], pid.lower() + "-replay1", shards=1)
     c = dict(tvconsts or {})
     c.update({"LimRoot": b["limits"]["root"], "LimTs": b["limits"]["ts"], "LimSn": b["limits"]["sn"],
@@ -280,3 +287,41 @@ def replay_one(pid, path, seed, fields, rollback=False, c14=False, tvconsts=None
     for fid, h in v.known_hits.items():
         log(f"KNOWN-FINDING: property={pid} {fid}: {h['what']}")
     return 1 if v.violations else 0
+
+
+def fixture_traces(v, pid, fields, tag):
+    """The repository's own test fixtures (tough/tests/data: tuf-reference-impl, consistent-snapshots, rotated-root,
+    dubious-role-names, expired-repository safe/unsafe, safe-target-paths) loaded twice each by the real client
+    through the recording transport; the recorded traces - real RSA / Ed25519 documents mapped to model records by an
+    abstraction function - are validated against TufClient with Trace_Client in both modes.  A copy of the traces
+    with one recorded field corrupted must be rejected (the binding is live)."""
+    w = workdir(tag)
+    out = os.path.join(w, "fixtures.ndjson")
+    vlib.vh(["fixtures", "--out", out], timeout=600)
+    traces, cur = {}, None
+    for e in read_ndjson(out):
+        if e["ev"] == "reset":
+            cur = e["id"]
+            traces[cur] = []
+        traces[cur].append(e)
+    if len(traces) < 5:
+        raise ToolError(f"only {len(traces)} fixture traces recorded")
+    consts = {"LimRoot": 1, "LimTs": 1, "LimSn": 1, "LimTg": 1, "Unit": 16777216, "MaxRootUpdates": 1024}
+    strict, obs, mism, n, _ = validate(traces, tag + "-tv", consts, parallel=2)
+    st = judge(v, pid, traces, {tid: {"fixture": tid} for tid in traces}, strict, obs, mism, fields)
+    # negative control: the reported version of the first successful cycle of every trace is changed
+    bad = json.loads(json.dumps(traces))
+    touched = 0
+    for tid, evs in bad.items():
+        for e in evs:
+            if e["ev"] == "end" and e["res"] == "ok":
+                e["vers"]["sn"] += 1
+                touched += 1
+                break
+    _, _, mism2, _, _ = validate(bad, tag + "-neg", consts, parallel=2)
+    rejected = sum(1 for tid, evs in bad.items() if tid in mism2)
+    expected = sum(1 for tid, evs in bad.items() if any(e["ev"] == "end" and e["res"] == "ok" for e in evs))
+    if rejected != expected:
+        raise ToolError(f"trace validation accepted corrupted fixture traces ({rejected} of {expected} rejected)")
+    return {"fixture_traces": len(traces), "fixture_cycles": st["cycles"], "fixture_events": n, "fixture_traces_explained_by_model": st["explained"],
+            "fixture_traces_not_explained": st["unexplained"], "corrupted_copies_rejected": f"{rejected} of {expected}"}
